@@ -53,6 +53,196 @@ pub fn run(op: &str, a: &[&str]) -> Option<String> {
             Ok(r) => format!("ok {} {}", addr_s(&r.base), r.prefix_len),
             Err(_) => "err".into(),
         },
+        "table" => table_scenario(a),
+        "beacon_enc" | "beacon_dec" | "beacon_rt" => beacon_op(op, a),
+        "keyrt" | "genkey" => key_op(op, a),
         _ => return None,
     })
+}
+
+// ---- ClaimTable scenarios --------------------------------------------------------------------
+use crate::table::ClaimTable;
+use crate::types::RangeList;
+use crate::util::MockTimeSource;
+use std::net::SocketAddr;
+
+pub fn peer_addr(n: u16) -> SocketAddr {
+    format!("[::]:{}", n).parse().unwrap()
+}
+
+pub fn parse_ranges(s: &str) -> RangeList {
+    let mut l = RangeList::new();
+    if s == "-" || s.is_empty() {
+        return l;
+    }
+    for r in s.split(';') {
+        let (b, p) = r.split_once('/').unwrap();
+        l.push(Range { base: mk_addr(&unhex(b)), prefix_len: num(p) });
+    }
+    l
+}
+
+pub fn table_dump(t: &ClaimTable<MockTimeSource>) -> String {
+    let (claims, cache) = crate::table::verif::dump(t);
+    let c: Vec<String> = claims.iter().map(|(p, b, pl, to)| format!("{}:{}/{}@{}", p.port(), hex(b), pl, to)).collect();
+    let k: Vec<String> = cache.iter().map(|(a, p, to)| format!("{}>{}@{}", hex(a), p.port(), to)).collect();
+    format!("claims=[{}];cache=[{}]", c.join(","), k.join(","))
+}
+
+pub fn table_scenario(a: &[&str]) -> String {
+    MockTimeSource::set_time(0);
+    let mut t = ClaimTable::<MockTimeSource>::new(num(a[0]), num(a[1]));
+    let mut out: Vec<String> = vec![];
+    for tok in &a[2..] {
+        let p: Vec<&str> = tok.split('.').collect();
+        match p[0] {
+            "T" => {
+                MockTimeSource::set_time(num(p[1]));
+                out.push("-".into())
+            }
+            "S" => {
+                t.set_claims(peer_addr(num(p[1])), parse_ranges(p[2]));
+                out.push("-".into())
+            }
+            "R" => {
+                t.remove_claims(peer_addr(num(p[1])));
+                out.push("-".into())
+            }
+            "L" => out.push(match t.lookup(mk_addr(&unhex(p[1]))) {
+                Some(a) => format!("p{}", a.port()),
+                None => "none".into(),
+            }),
+            "C" => {
+                t.cache(mk_addr(&unhex(p[1])), peer_addr(num(p[2])));
+                out.push("-".into())
+            }
+            "H" => {
+                t.housekeep();
+                out.push("-".into())
+            }
+            "D" => out.push(table_dump(&t)),
+            _ => panic!("bad table op"),
+        }
+    }
+    out.join(" ")
+}
+
+// ---- beacons -----------------------------------------------------------------------------------
+use crate::beacon::BeaconSerializer;
+use std::net::{Ipv4Addr, Ipv6Addr, SocketAddrV4, SocketAddrV6};
+
+pub fn sockaddr_of(b: &[u8]) -> SocketAddr {
+    if b.len() == 6 {
+        SocketAddr::V4(SocketAddrV4::new(Ipv4Addr::new(b[0], b[1], b[2], b[3]), ((b[4] as u16) << 8) | b[5] as u16))
+    } else {
+        let mut ip = [0u8; 16];
+        ip.copy_from_slice(&b[..16]);
+        SocketAddr::V6(SocketAddrV6::new(Ipv6Addr::from(ip), ((b[16] as u16) << 8) | b[17] as u16, 0, 0))
+    }
+}
+
+pub fn sockaddr_bytes(a: &SocketAddr) -> Vec<u8> {
+    match a {
+        SocketAddr::V4(a) => {
+            let mut v = a.ip().octets().to_vec();
+            v.extend_from_slice(&a.port().to_be_bytes());
+            v
+        }
+        SocketAddr::V6(a) => {
+            let mut v = a.ip().octets().to_vec();
+            v.extend_from_slice(&a.port().to_be_bytes());
+            v
+        }
+    }
+}
+
+fn peers_str(p: &[SocketAddr]) -> String {
+    if p.is_empty() {
+        return "-".into();
+    }
+    p.iter().map(|a| hex(&sockaddr_bytes(a))).collect::<Vec<_>>().join(";")
+}
+
+pub fn beacon_op(op: &str, a: &[&str]) -> String {
+    let ser = BeaconSerializer::<MockTimeSource>::new(&unhex(a[0]));
+    let hour: i64 = num(a[1]);
+    MockTimeSource::set_time(hour * 3600 + 17);
+    match op {
+        "beacon_enc" => {
+            let peers: Vec<SocketAddr> = if a[2] == "-" { vec![] } else { a[2].split(';').map(|x| sockaddr_of(&unhex(x))).collect() };
+            format!("ok {}", hex(ser.encode(&peers).as_bytes()))
+        }
+        "beacon_dec" => {
+            let ttl: Option<u16> = if a[2] == "none" { None } else { Some(num(a[2])) };
+            let text = String::from_utf8(unhex(a[3])).unwrap();
+            format!("ok {}", peers_str(&ser.decode(&text, ttl)))
+        }
+        "beacon_rt" => {
+            // encode at hour a[1], embed (prefix a[4], suffix a[5]), decode at hour a[3] with ttl a[2]
+            let peers: Vec<SocketAddr> = if a[6] == "-" { vec![] } else { a[6].split(';').map(|x| sockaddr_of(&unhex(x))).collect() };
+            let b = ser.encode(&peers);
+            let text = format!("{}{}{}", String::from_utf8(unhex(a[4])).unwrap(), b, String::from_utf8(unhex(a[5])).unwrap());
+            let ttl: Option<u16> = if a[2] == "none" { None } else { Some(num(a[2])) };
+            let now: i64 = num(a[3]);
+            MockTimeSource::set_time(now * 3600 + 5);
+            format!("ok {} {}", hex(b.as_bytes()), peers_str(&ser.decode(&text, ttl)))
+        }
+        _ => unreachable!(),
+    }
+}
+
+// ---- keys (C18) -------------------------------------------------------------------------------
+use crate::crypto::{verif as hcm, Config as CryptoConfig, Crypto};
+
+pub fn key_op(op: &str, a: &[&str]) -> String {
+    match op {
+        // key bytes -> text -> parsed back as public key / private key / key pair
+        "keyrt" => {
+            let key = unhex(a[0]);
+            let text = to_base62(&key);
+            let as_pub = match hcm::parse_public_key(&text) {
+                Ok(k) => (k.to_vec() == key) as u8,
+                Err(_) => 0,
+            };
+            let expect_pub = hcm::seed_public_key(&key);
+            let as_priv = match hcm::parse_private_key_pub(&text) {
+                Ok(p) => (p == expect_pub) as u8,
+                Err(_) => 0,
+            };
+            let as_pair = match hcm::parse_keypair_pub(&text, &to_base62(&expect_pub)) {
+                Ok(p) => (p == expect_pub) as u8,
+                Err(_) => 0,
+            };
+            // and through Crypto::new as private + trusted key
+            let cfg = CryptoConfig { private_key: Some(text.clone()), trusted_keys: vec![to_base62(&expect_pub)], algorithms: vec!["plain".into()], ..Default::default() };
+            let via_new = match Crypto::new([0; 16], &cfg) {
+                Ok(c) => (hcm::own_public_key(&c) == expect_pub && hcm::trusted_keys(&c) == vec![expect_pub.clone()]) as u8,
+                Err(_) => 0,
+            };
+            format!("ok {} pub={} priv={} pair={} new={}", hex(text.as_bytes()), as_pub, as_priv, as_pair, via_new)
+        }
+        // password -> generated pair, twice, and through Crypto::new in two instances
+        "genkey" => {
+            let pw = String::from_utf8(unhex(a[0])).unwrap();
+            let (p1, q1) = Crypto::generate_keypair(Some(&pw));
+            let (p2, q2) = Crypto::generate_keypair(Some(&pw));
+            let cfg = CryptoConfig { password: Some(pw.clone()), algorithms: vec!["plain".into()], ..Default::default() };
+            let c1 = Crypto::new([1; 16], &cfg).unwrap();
+            let c2 = Crypto::new([2; 16], &cfg).unwrap();
+            let same = (p1 == p2 && q1 == q2 && hcm::own_public_key(&c1) == hcm::own_public_key(&c2)) as u8;
+            let printed_matches = (to_base62(&hcm::own_public_key(&c1)) == q1) as u8;
+            let cfgk = CryptoConfig { private_key: Some(p1.clone()), public_key: Some(q1.clone()), trusted_keys: vec![q1.clone()], algorithms: vec!["plain".into()], ..Default::default() };
+            let accepted = match Crypto::new([3; 16], &cfgk) {
+                Ok(c) => (hcm::own_public_key(&c) == hcm::own_public_key(&c1)) as u8,
+                Err(_) => 0,
+            };
+            let from_priv = match Crypto::public_key_from_private_key(&p1) {
+                Ok(q) => (q == q1) as u8,
+                Err(_) => 0,
+            };
+            let trusts_self = (hcm::trusted_keys(&c1) == vec![hcm::own_public_key(&c2)]) as u8;
+            format!("ok same={} printed={} accepted={} frompriv={} trust={} pub={}", same, printed_matches, accepted, from_priv, trusts_self, hex(&hcm::own_public_key(&c1)))
+        }
+        _ => unreachable!(),
+    }
 }
